@@ -99,7 +99,7 @@ def cache_family(ck, harness, hist):
 
 
 def run(ck):
-    harness, model = sc.build()
+    harness, model = sc.build(ck)
     ck.add_proof(vv.prove("Properties_C11", set()))
     ck.add_proof(vv.prove("Refuted_C11", set()))
     ck.add_proof(vv.prove("CacheCorollary_C11", set()))
@@ -114,6 +114,13 @@ def run(ck):
 
         # a distribution fed with finite values whose squares overflow (known finding)
         cases += [("DISTX", 0, ck.rng.randint(1, 2**31 - 1), s) for s in (0, 5)]
+        # the summary of a run longer than 2^31 ms: only once summary::load reads the elapsed time with its
+        # full width (read off the source; the pinned `int ms` is C11_summary_elapsed_int_roundtrip_refuted)
+        if sc.STATE["elapsed_width"] == 64:
+            cases += [("SUMGAX", 0, ck.rng.randint(1, 2**31 - 1), s) for s in (0, 3, 7)]
+        else:
+            ck.notes.append("summary::load reads the elapsed time into an int: summaries of runs longer than 2^31 ms "
+                            "are not generated (refuted theorem C11_summary_elapsed_int_roundtrip_refuted; fix on wt2-c11)")
 
     sset = sc.sset_lines(harness)
     hl = ["GEN %s %d %d %d" % c for c in cases]
@@ -124,7 +131,7 @@ def run(ck):
     owner = []
     for i, c in enumerate(cases):
         f = sc.fields(hout[i])
-        if not f or f[0] != "OK" or len(f) < 9:
+        if not f or f[0] != "OK" or len(f) < 10:
             continue
         mlines.append((c[1], "SAVE %s %s" % (c[0], f[1])))
         owner.append((i, "save"))
@@ -149,10 +156,19 @@ def run(ck):
                              replay)
             continue
         f = sc.fields(ho)
-        if f[0] != "OK" or len(f) < 9:
+        if f[0] != "OK" or len(f) < 10:
             ck.add_diff({"case": list(c)}, "", ho, "harness protocol")
             continue
-        dump0, save0, ret, dump1, save1, sigs, valid1, dump0c = f[1:9]
+        dump0, save0, ret, dump1, save1, sigs, valid1, dump0c, save_ok = f[1:10]
+        if save_ok != "1":
+            # save() reports that it cannot persist the object: accepted only for statistics that are not
+            # finite (distribution::save refuses them), and the model must refuse too
+            if t == "DISTX" and sc.unhex(msave.get(i, "-")) == b"REFUSED":
+                hist["DISTX:save-refused"] = hist.get("DISTX:save-refused", 0) + 1
+                continue
+            replay["save"] = sc.unhex(save0).decode("latin1")[:500]
+            ck.add_violation("%s:save-fails" % t, "%s built by history %s: save() returns false" % (t, c[1:]), replay)
+            continue
         if c[3] >= 3 or t in ("H", "F"):
             ck.nontriv((t, dump0))
         if i % (len(cases) // 5 + 1) == 0:
